@@ -741,9 +741,8 @@ func (db *DB) buildSetIdx(bucket string, r *Record) error {
 	}
 
 	if r.H.meta.Flag == DataDeleteFlag {
-		if err := db.SetIdx[bucket].SRem(string(r.E.Key), r.E.Value); err != nil {
-			return fmt.Errorf("when build SetIdx SRem index err: %s", err)
-		}
+		// a removal that found nothing was a no-op when it was committed; it must be one on replay too
+		_ = db.SetIdx[bucket].SRem(string(r.E.Key), r.E.Value)
 	}
 
 	return nil
@@ -794,6 +793,8 @@ func (db *DB) buildListIdx(bucket string, r *Record) error {
 		return ErrEntryIdxModeOpt
 	}
 
+	// Errors are ignored exactly as Tx.buildListIdx ignores them at commit time:
+	// an operation that was a no-op when committed must not make Open fail.
 	switch r.H.meta.Flag {
 	case DataLPushFlag:
 		_, _ = db.ListIdx[bucket].LPush(string(r.E.Key), r.E.Value)
@@ -804,32 +805,22 @@ func (db *DB) buildListIdx(bucket string, r *Record) error {
 		count, _ := strconv2.StrToInt(countAndValueIndex[0])
 		value := []byte(countAndValueIndex[1])
 
-		if _, err := db.ListIdx[bucket].LRem(string(r.E.Key), count, value); err != nil {
-			return ErrWhenBuildListIdx(err)
-		}
+		_, _ = db.ListIdx[bucket].LRem(string(r.E.Key), count, value)
 	case DataLPopFlag:
-		if _, err := db.ListIdx[bucket].LPop(string(r.E.Key)); err != nil {
-			return ErrWhenBuildListIdx(err)
-		}
+		_, _ = db.ListIdx[bucket].LPop(string(r.E.Key))
 	case DataRPopFlag:
-		if _, err := db.ListIdx[bucket].RPop(string(r.E.Key)); err != nil {
-			return ErrWhenBuildListIdx(err)
-		}
+		_, _ = db.ListIdx[bucket].RPop(string(r.E.Key))
 	case DataLSetFlag:
 		keyAndIndex := strings.Split(string(r.E.Key), SeparatorForListKey)
 		newKey := keyAndIndex[0]
 		index, _ := strconv2.StrToInt(keyAndIndex[1])
-		if err := db.ListIdx[bucket].LSet(newKey, index, r.E.Value); err != nil {
-			return ErrWhenBuildListIdx(err)
-		}
+		_ = db.ListIdx[bucket].LSet(newKey, index, r.E.Value)
 	case DataLTrimFlag:
 		keyAndStartIndex := strings.Split(string(r.E.Key), SeparatorForListKey)
 		newKey := keyAndStartIndex[0]
 		start, _ := strconv2.StrToInt(keyAndStartIndex[1])
 		end, _ := strconv2.StrToInt(string(r.E.Value))
-		if err := db.ListIdx[bucket].Ltrim(newKey, start, end); err != nil {
-			return ErrWhenBuildListIdx(err)
-		}
+		_ = db.ListIdx[bucket].Ltrim(newKey, start, end)
 	}
 
 	return nil
